@@ -180,7 +180,7 @@ PROPS["C13"]["functions"] += ["ValueTable::validate_plan", "ValueTable::enact_pl
 prop("C06",
      functions=["ValueTable::{value_size, overwrite_chain, write_insert_plan, write_replace_plan, clear_chain, clear_slot, next_free, read_next_part, for_parts, query, size, write_remove_plan}",
                 "table::Entry header readers/writers", "TableKey::{write, fetch, compare, encoded_size}", "Column::compress (tier selection)", "column::SIZES"],
-     bounds="chains: multipart table with 32-byte parts (22 payload bytes per head/continuation, 30 in the tail), value lengths 0..=96 enumerated (boundaries in quick, all in thorough), "
+     bounds="chains: multipart table with 32-byte parts (22 payload bytes per head/continuation, 30 in the tail), value lengths 0..=96 enumerated, one write harness and one read/remove harness per length, each against the on-disk format specification (part boundaries in quick, all 97 in thorough), "
             "contents/flags symbolic; tier selection: the real 255-entry SIZES table, Column::compress over a 3-table slice {32, 64, multipart} with codec replaced by a length model",
      outside="the codecs themselves (lz4 FFI, snap), values of 5 or more parts, the real 4096-byte multipart entry size, column-level move between tiers, "
              "pre-states with a non-empty free list for chain writes",
@@ -190,19 +190,24 @@ add("C06", H("column", "c06_s1b_compress_tier_a", "quick", ["C06.S1"], "(value l
              unwind=102, stubs=["stub: Compress::compress -> output of harness-chosen length"]))
 add("C06", H("column", "c06_s1b_compress_tier_b", "thorough", ["C06.S1"], "10 more (length, output length) pairs", "3 tables", 900, 6, unwind=102,
              stubs=["stub: Compress::compress -> output of harness-chosen length"]))
-add("C06", H("table", "c06_s2_insert_read_boundaries", "quick", ["C06.S2", "C06.S4"], "value bytes [u8;100], compressed flag; length in {0,1,30,31,52,53,74,75,96}", "32-byte parts, <= 4 parts; unwind 102", 1800, 10,
-             unwind=102, stubs=ENV + OVERLAY + TFILE, replay="playback-native-env"))
-add("C06", H("table", "c06_s2_insert_read_boundaries_rc", "quick", ["C06.S2", "C06.S4"], "as above on a ref-counted table; length in {0,26,27,48,49,70,71}", "32-byte parts; unwind 102", 1800, 10,
-             unwind=102, stubs=ENV + OVERLAY + TFILE, replay="playback-native-env"))
-for i in range(8):
-    add("C06", H("table", "c06_s2_insert_read_l%d" % i, "thorough", ["C06.S2", "C06.S4"], "value bytes, compressed flag; 11 lengths per harness (all lengths 0..=96 over the family)", "32-byte parts; unwind 102", 2400, 10,
+_c06_quick = {0, 30, 31, 53, 75}
+for l in range(0, 97):
+    tier = "quick" if l in _c06_quick else "thorough"
+    add("C06", H("table", "c06_w_len%d" % l, tier, ["C06.S2"], "value bytes [u8;100], compressed flag; length %d: write_insert_plan output vs. the format specification" % l,
+                 "32-byte parts, <= 4 parts; unwind 102", 1500, 5, unwind=102, stubs=ENV + OVERLAY + TFILE, replay="playback-native-env"))
+    add("C06", H("table", "c06_r_len%d" % l, tier, ["C06.S2", "C06.S4"], "value bytes, compressed flag, overlay or disk; length %d: specified entries at scattered slots read back / are released" % l,
+                 "32-byte parts, <= 4 parts; unwind 102", 1500, 5, unwind=102, stubs=ENV + OVERLAY + TFILE, replay="playback-native-env"))
+for l in (0, 1, 26, 27, 48, 49, 70, 71, 92):
+    tier = "quick" if l in (27,) else "thorough"
+    add("C06", H("table", "c06_w_rc_len%d" % l, tier, ["C06.S2"], "as above on a ref-counted table; length %d" % l, "32-byte parts; unwind 102", 1500, 5, unwind=102, stubs=ENV + OVERLAY + TFILE, replay="playback-native-env"))
+    add("C06", H("table", "c06_r_rc_len%d" % l, tier, ["C06.S2", "C06.S4"], "as above on a ref-counted table (any counter >= 1); length %d" % l, "32-byte parts; unwind 102", 1500, 5, unwind=102, stubs=ENV + OVERLAY + TFILE, replay="playback-native-env"))
+_c06_pairs = [(0, 30), (30, 0), (10, 20), (1, 30), (31, 53), (53, 31), (52, 75), (75, 31), (74, 75), (75, 74), (96, 31), (31, 96), (53, 53)]
+for o, n in _c06_pairs:
+    add("C06", H("table", "c06_s3_replace_%d_to_%d" % (o, n), "quick" if (o, n) in ((31, 53), (75, 31), (10, 20)) else "thorough", ["C06.S3"],
+                 "old/new value bytes, flags; length %d replaced by %d (same table kind: both single-entry or both chained); result vs. the format specification" % (o, n), "32-byte parts; unwind 102", 1800, 6, unwind=102, stubs=ENV + OVERLAY + TFILE, replay="playback-native-env"))
+for o, n in [(0, 26), (26, 0), (27, 49), (49, 27), (71, 27)]:
+    add("C06", H("table", "c06_s3_replace_rc_%d_to_%d" % (o, n), "thorough", ["C06.S3"], "as above, ref-counted table", "32-byte parts; unwind 102", 1800, 6,
                  unwind=102, stubs=ENV + OVERLAY + TFILE, replay="playback-native-env"))
-add("C06", H("table", "c06_s3_replace_boundaries", "quick", ["C06.S3", "C06.S2"], "old/new value bytes, flags; (old,new) length in 8 boundary pairs", "32-byte parts; unwind 102", 2400, 12,
-             unwind=102, stubs=ENV + OVERLAY + TFILE, replay="playback-native-env"))
-add("C06", H("table", "c06_s3_replace_boundaries_rc", "thorough", ["C06.S3", "C06.S2"], "as above, ref-counted table, 5 pairs", "32-byte parts; unwind 102", 2400, 12,
-             unwind=102, stubs=ENV + OVERLAY + TFILE, replay="playback-native-env"))
-add("C06", H("table", "c06_s3_replace_more", "thorough", ["C06.S3", "C06.S2"], "8 more (old,new) pairs", "32-byte parts; unwind 102", 2400, 12,
-             unwind=102, stubs=ENV + OVERLAY + TFILE, replay="playback-native-env"))
 
 # ---- C07.R2
 for fn in ("c07_r2_dispatch_set", "c07_r2_dispatch_reference", "c07_r2_dispatch_dereference", "c07_r2_dispatch_tree_ops"):
@@ -233,7 +238,7 @@ for sfx, tier in (("a", "quick"), ("b", "quick"), ("c", "thorough"), ("d", "quic
     add("C10", H("column", "c10_n1_unpack_" + sfx, tier, ["C10.N1"], "node bytes [u8;40]; (length, child count) in 5 pairs", "unwind 42", 1500, 16, unwind=42, stubs=FMT_STUB))
 
 # ======================================================================================== C08 (mapsub build)
-MAPSUB = ["model: std HashMap/HashSet in db.rs, log.rs, column.rs, options.rs replaced by a fixed-capacity association array (crate::verif_map, capacity 4; last write wins, "
+MAPSUB = ["model: std HashMap/HashSet in db.rs, log.rs, column.rs, options.rs replaced by a fixed-capacity association array (crate::verif_map, capacity 2; last write wins, "
           "entry() sees what get() sees, iteration visits each live pair once in slot order) — validated natively against std::HashMap at setup"]
 prop("C08",
      functions=["IndexedChangeSet::{check_operations, copy_to_overlay}", "BTreeChangeSet::{check_operations, copy_to_overlay}", "DbInner::commit_raw"],
@@ -249,7 +254,8 @@ add("C08", H("db", "c08_a1_checked_btree_changeset_copies_without_error", "quick
 for fn, tier in (("c08_a2_commit_raw_hash_hash_first_set", "quick"), ("c08_a2_commit_raw_hash_hash_first_reference", "thorough"),
                  ("c08_a2_commit_raw_hash_btree_first_set", "quick"), ("c08_a2_commit_raw_hash_btree_first_deref", "thorough")):
     add("C08", H("db", fn, tier, ["C08.A2"], "3 operations in 2 columns: kinds enumerated (16 combinations per harness), values, ref_counted flags, background error, old overlay value symbolic",
-                 "unwind 34", 2400, 12, variant="mapsub", unwind=34, stubs=ENV + MAPSUB, replay="solver-trace-only"))
+                 "unwind 3 (bounds the recursive drop glue of NewNode that CBMC explores when the rejected change set is dropped) + unwindset memcmp.0:34 (32-byte key compare)",
+                 2400, 12, variant="mapsub", unwind=3, cbmc_args=["--unwindset", "memcmp.0:34"], stubs=ENV + MAPSUB, replay="solver-trace-only"))
 add("C08", H("db", "c08_twin_must_fail", "quick", [], "one operation", "must-fail twin", 600, 4, variant="mapsub", twin=True, unwind=34, stubs=FMT_STUB + MAPSUB))
 for h in _H["C08"]:
     h["name"] = h["name"].replace("::verif_kani::", "::verif_kani_ms::")
@@ -300,12 +306,13 @@ add("C04", H("db", "c04_b4_overlay_cursor", "quick", ["C04.B4"], "<=3 distinct o
 PROPS["C10"]["functions"] += ["HashColumn::{claim_tree_values, prepare_children, prepare_node, claim_children_to_data, claim_node}", "ValueTable::claim_entries",
                               "HashColumn::{write_address_inc_ref_plan, write_address_dec_ref_plan, write_ref_count_plan_new, write_ref_count_plan_existing, search_all_ref_count}",
                               "RefCountTable::{get, write_insert_plan, write_remove_plan, plan_insert_chunk, plan_remove_chunk, chunk_index}"]
-PROPS["C10"]["bounds"] += "; trees: root with 0..=3 children (New leaf / Existing, mix symbolic) and 0..=4 data bytes, the 255/256 children boundary (root and nested), miniature multitree column {32, 64, multipart}; ref-count steps on one node address (3 slots symbolic)"
-for fn, tier in (("c10_n2_claim_tree_c3_d4", "quick"), ("c10_n2_claim_tree_c2_d0", "thorough"), ("c10_n2_claim_tree_c0_d3", "thorough"), ("c10_n2_claim_tree_c1_d1", "quick")):
-    add("C10", H("column", fn, tier, ["C10.N2"], "root data bytes, per child New/Existing, leaf data byte, existing addresses, append_only", "miniature multitree column; unwind 40", 1800, 10,
-                 variant="mapsub", unwind=40, stubs=ENV + MAPSUB, replay="solver-trace-only"))
+PROPS["C10"]["bounds"] += "; trees: root with 0..=2 children (New leaf / Existing, pattern enumerated) and 0..=2 data bytes, the 256-children rejection (root and nested; acceptance of exactly 255 children is covered only by decoding, C10.N1), miniature multitree column {32, 64, multipart}; ref-count steps on one node address (3 slots symbolic)"
+for fn, tier in (("c10_n2_claim_tree_c0", "thorough"), ("c10_n2_claim_tree_c1_new", "quick"), ("c10_n2_claim_tree_c1_existing", "thorough"), ("c10_n2_claim_tree_c2_new_new", "quick"),
+                 ("c10_n2_claim_tree_c2_new_existing", "quick"), ("c10_n2_claim_tree_c2_existing_new", "thorough"), ("c10_n2_claim_tree_c2_existing_existing", "thorough")):
+    add("C10", H("column", fn, tier, ["C10.N2"], "root data bytes, leaf data byte, existing addresses, append_only; New/Existing pattern of the children concrete per harness", "miniature multitree column; unwind 4", 1800, 10,
+                 variant="mapsub", unwind=4, stubs=ENV + MAPSUB, replay="solver-trace-only"))
     _ms("C10")
-for fn in ("c10_n2_claim_tree_255_children", "c10_n2_claim_tree_256_children_rejected", "c10_n2_claim_tree_nested_256_rejected"):
+for fn in ("c10_n2_claim_tree_256_children_rejected", "c10_n2_claim_tree_nested_256_rejected"):
     add("C10", H("column", fn, "quick", ["C10.N2", "C08.A3"], "concrete wide node (255 / 256 children, one New child)", "unwind 260", 1800, 10,
                  variant="mapsub", unwind=260, stubs=ENV + MAPSUB, replay="solver-trace-only"))
     _ms("C10")
